@@ -5,13 +5,15 @@
 # then runs the property's own check (and any extra ones) against the changed copy and stores everything
 # under /verif/seeded/<Cxx>-<i>/ (patch.diff, demo_test.go, notes.md, meta.json). /repo is never touched.
 id="$1"; i="$2"; shift 2
-src="/tmp/seed/$id/seeded/$i"
+# SEEDROOT: where the sub-agents' worktrees are; SEEDOFFSET: added to <i> for the stored name (round 2 stores 3..5)
+n=$((i + ${SEEDOFFSET:-0}))
+src="${SEEDROOT:-/tmp/seed}/$id/seeded/$i"
 # once the sub-agent's worktree is gone, re-verify from the stored copy
-[ -f "$src/patch.diff" ] || { src="$(mktemp -d /tmp/seedsrc.XXXXXX)"; cp /verif/seeded/$id-$i/patch.diff /verif/seeded/$id-$i/demo_test.go "$src/" 2>/dev/null; cp /verif/seeded/$id-$i/notes.md "$src/" 2>/dev/null; }
+[ -f "$src/patch.diff" ] || { src="$(mktemp -d /tmp/seedsrc.XXXXXX)"; tmpsrc="$src"; cp /verif/seeded/$id-$n/patch.diff /verif/seeded/$id-$n/demo_test.go "$src/" 2>/dev/null; cp /verif/seeded/$id-$n/notes.md "$src/" 2>/dev/null; }
 [ -f "$src/patch.diff" ] || { echo "no patch at $src"; exit 2; }
 export GOFLAGS=-mod=mod GOPROXY=off GOSUMDB=off GOTOOLCHAIN=local
 d="$(mktemp -d /tmp/seedv.XXXXXX)"
-trap 'rm -rf "$d"' EXIT INT TERM
+trap 'rm -rf "$d" $tmpsrc' EXIT INT TERM
 git -C /repo archive HEAD | tar -x -C "$d"
 cd "$d" && git init -q . 
 cp "$src/demo_test.go" "$d/zz_seeded_demo_test.go"
@@ -27,7 +29,7 @@ echo "demo on unchanged tree : $base"
 echo "build with change      : ${build:-ok}"
 echo "suite with change      : $suite"
 echo "demo with change       : $demo"
-dest="/verif/seeded/$id-$i"
+dest="/verif/seeded/$id-$n"
 mkdir -p "$dest"
 cp "$src/patch.diff" "$src/demo_test.go" "$dest/"
 [ -f "$src/notes.md" ] && cp "$src/notes.md" "$dest/"
